@@ -278,6 +278,6 @@ func init() {
 			"plus, on a single replica: ALL programs of <=4 (thorough 5) steps over every editing call kind x position class of a data type (the C07 templates) and garbage collections with the document's own vector between them, " +
 			"run on two real documents (with / without the collections): a call fails in one iff in the other, content equal after every step, index/path view agrees with the reference model in one iff in the other, Root()==Marshal(), GarbageLen()==0 after a collection",
 		Assume:      []string{"memdb backend", "small-scope bounds as listed per scenario name", "map iteration order uncontrolled; violations re-run 5x"},
-		QuickBudget: 300 * time.Second,
+		QuickBudget: 420 * time.Second,
 	})
 }
